@@ -95,3 +95,83 @@ def payloads(chk, G, S, w, base_abs, n_mut=2, n_junk=1):
             chk.unmodelled += 1
             continue
         yield kind, p2, pv
+
+
+def class_positions(w, cfg, ty, p, path=(), _depth=0):
+    """type-directed walk of a payload: yield (path, class index, kind) for every position of `p` that the type makes a
+    class / TypedDict position read by KEY (dict strategy) and that holds a mapping.  Paths as in `Gen._positions`."""
+    if ty is None or isinstance(ty, str) or _depth > 8:
+        return
+    k, t = ty[0], p[0]
+    if k in ("opt", "new", "ann", "final", "alias"):
+        if t != "N":
+            yield from class_positions(w, cfg, ty[1], p, path, _depth)
+        return
+    if k in ("list", "seq", "mseq", "tup*", "deque", "set", "mset", "fset"):
+        if t in ("l", "t", "q", "S", "F"):
+            for i, x in enumerate(p[1]):
+                yield from class_positions(w, cfg, ty[1], x, path + (i,), _depth + 1)
+        return
+    if k == "tup":
+        if t in ("l", "t", "q") and len(p[1]) == len(ty[1]):
+            for i, (a, x) in enumerate(zip(ty[1], p[1])):
+                yield from class_positions(w, cfg, a, x, path + (i,), _depth + 1)
+        return
+    if k == "nt":
+        fts = [f["ty"] for f in w["classes"][ty[1]]["fields"]]
+        if t in ("l", "t", "q") and len(p[1]) <= len(fts):
+            for i, (a, x) in enumerate(zip(fts, p[1])):
+                yield from class_positions(w, cfg, a, x, path + (i,), _depth + 1)
+        return
+    if k in ("dict", "map", "mmap", "odict", "ddict"):
+        if t == "d":
+            for i, (a, b) in enumerate(p[1]):
+                yield from class_positions(w, cfg, ty[2], b, path + ((i, 1),), _depth + 1)
+        return
+    if k in ("cls", "td", "union"):
+        if t != "d" or (k != "td" and cfg["tuple"]):
+            return
+        members = list(ty[1]) if k == "union" else [ty[1]]
+        for ci in members:
+            yield (path, ci, w["classes"][ci]["kind"])
+            fds = {f["name"]: f for f in w["classes"][ci]["fields"]}
+            for i, (a, b) in enumerate(p[1]):
+                f = fds.get(a[1]) if a[0] == "s" else None
+                if f is not None and f["ty"] is not None:
+                    yield from class_positions(w, cfg, f["ty"], b, path + ((i, 1),), _depth + 1)
+
+
+def deep_missing_key_payloads(chk, G, S, w, cfg, ty, base_abs, limit=6, top=True):
+    """"missing parts" at EVERY depth: the valid payload with one key removed from a NESTED class / TypedDict payload (a
+    class or TypedDict sitting under a TypedDict key -- required or not --, under an attribute, inside a list, a tuple, a
+    mapping value, an Optional).  The hook of the enclosing position then meets an inner hook that fails the way the
+    generated hooks signal a missing key (fast mode: a bare KeyError); whatever the enclosing template does with absent
+    keys of its own, a PRESENT component that is invalid has to make the call raise -- in both modes alike.
+    top=False leaves out the outermost position (covered by the callers' own streams)."""
+    out, seen = [], set()
+    poss = [(path, ci) for path, ci, _ in class_positions(w, cfg, ty, base_abs) if path or top]
+    chk.rng.shuffle(poss)
+    for path, ci in poss:
+        sub = base_abs
+        try:
+            for step in path:
+                sub = sub[1][step[0]][step[1]] if isinstance(step, tuple) else sub[1][step]
+        except Exception:
+            continue
+        names = {f["name"] for f in w["classes"][ci]["fields"]}
+        idx = [i for i, (a, _) in enumerate(sub[1]) if a[0] == "s" and a[1] in names]
+        chk.rng.shuffle(idx)
+        for i in idx[:2]:
+            if (path, i) in seen or len(out) >= limit:
+                continue
+            seen.add((path, i))
+            p = G._edit(base_abs, path, lambda x, i=i: ("d", x[1][:i] + x[1][i + 1:]))
+            try:
+                pv, p2 = S.realise(p)
+            except Exception:
+                continue
+            if not gen.lookalike_hazard(p2):
+                fld = next(f for f in w["classes"][ci]["fields"] if f["name"] == sub[1][i][0][1])
+                req = fld.get("required", True) if w["classes"][ci]["kind"] == "td" else (fld["dflt"] is None and fld["init"])
+                out.append(("nested-key-removed:" + ("required" if req else "optional"), p2, pv))
+    return out
